@@ -255,6 +255,58 @@ def r6_tab_separated_only(ctx, res):
                                          'U+2029 as well, so a definition containing one of them is cut and its tail becomes a spurious ILI')
 
 
+def r7_records_hold_the_cells_of_the_line(ctx, res):
+    """two sites that must agree: the importer supplies what a row leaves out by *absence* - `info.get('status', 'active')`,
+    `info.get('definition')` (NULL) in _add_ili - so a record of _ili.load has a key only for a cell the line really has:
+    dict(zip(header fields, cells of the line)), zip() stopping at the shorter.  Padding short rows (zip_longest, `cells + ['']
+    * k`) turns "no status given" into status '' and "no definition" into the definition ''."""
+    import re
+    from ..speccheck import view
+    v = view(ctx, '_ili', 'load')
+    ys = [r for r in v.rows if r[0] in ('yield', 'yield-from')]
+    key = 'ili-record-is-zip-of-header-and-cells'
+    res.inst(key, v.loc(), f'{[r[1][:70] for r in ys]}')
+    if not ys:
+        res.find(key, v.loc(), '_ili.load yields nothing')
+    for k, t, g, c, e in ys:
+        ok = False
+        try:
+            node = ast.parse(re.sub(r'\$(\d+)', r'_loop_\1', re.sub(r'#(\d+)', r'_cell_\1', t)), mode='eval').body
+        except SyntaxError:
+            node = None
+        z = None
+        if isinstance(node, ast.Call) and isinstance(node.func, ast.Name) and node.func.id == 'dict' and len(node.args) == 1 and not node.keywords:
+            z = node.args[0]
+        elif isinstance(node, ast.DictComp) and len(node.generators) == 1 and isinstance(node.generators[0].target, ast.Tuple) \
+                and len(node.generators[0].target.elts) == 2 and not node.generators[0].ifs \
+                and norm(node.key) == norm(node.generators[0].target.elts[0]) and norm(node.value) == norm(node.generators[0].target.elts[1]):
+            z = node.generators[0].iter
+        if isinstance(z, ast.Call) and isinstance(z.func, ast.Name) and z.func.id == 'zip' and len(z.args) == 2 and not z.keywords:
+            cells = z.args[1]
+            # the cells: the line through str methods only (rstrip / split), nothing appended
+            x, pure = cells, True
+            while isinstance(x, ast.Call) and isinstance(x.func, ast.Attribute) and x.func.attr in ('split', 'rstrip') \
+                    and all(isinstance(a, ast.Constant) for a in x.args) and not x.keywords:
+                x = x.func.value
+            if isinstance(x, ast.Name) and x.id.startswith('_loop_') and not any(
+                    isinstance(n_, ast.Name) and n_.id.startswith('_loop_') for n_ in ast.walk(z.args[0])):
+                ok = True
+        if not ok:
+            res.find(key, v.loc(e), f'_ili.load yields `{t[:110]}`: not dict(zip(header fields, cells of the line)) - a record must have a '
+                                    f'key exactly for the cells its line has, the importer fills in what is absent (status \'active\', '
+                                    f'definition NULL)')
+    # the consumer side of the agreement
+    ad = ctx.repo.func('_add', '_add_ili')
+    key = 'ili-defaults-by-absence'
+    gets = {}
+    for n in walk_no_nested(ad.node):
+        if isinstance(n, ast.Call) and isinstance(n.func, ast.Attribute) and n.func.attr == 'get' and n.args and isinstance(n.args[0], ast.Constant):
+            gets[n.args[0].value] = norm(n)
+    res.inst(key, ad.module.loc(ad.node), f'{gets}')
+    if 'status' not in gets or "'active'" not in gets.get('status', ''):
+        res.find(key, ad.module.loc(ad.node), f"_add_ili no longer defaults an absent status to 'active' with info.get('status', 'active'): {gets}")
+
+
 RULES = [
     ('C19-R1', r1_write_set, 3),
     ('C19-R2', r2_upsert_shape, 6),
@@ -262,4 +314,5 @@ RULES = [
     ('C19-R4', r4_one_transaction, 1),
     ('C19-R5', r5_header, 2),
     ('C19-R6', r6_tab_separated_only, 3),
+    ('C19-R7', r7_records_hold_the_cells_of_the_line, 2),
 ]
